@@ -5,7 +5,8 @@ PID = 'C15'
 RULE = ('write_eci/read_eci: every boundary of the three designator forms, a stride over 0..999999 (all 1,000,000 in the '
         'thorough tier), numbers above the range; read_eci on all 1-byte and sampled 2-/3-byte sequences incl. every '
         'malformed class; decode_str on [241, designator, payload] for all 256 payload bytes x ECI 0,3,11,13,26,27 and other '
-        'ECI numbers (exhaustive); UTF-8 validation on structured valid/invalid sequences and on long sections (250..2050 bytes, up to 8200 thorough) of mixed character widths; non-trivial = accepted designator '
+        'ECI numbers (exhaustive), and on payloads of 16..64 bytes (to 256 thorough) with one byte of another kind at the block borders; '
+        'UTF-8 validation on structured valid/invalid sequences and on long sections (250..2050 bytes, up to 8200 thorough) of mixed character widths; non-trivial = accepted designator '
         'or printable payload')
 THEOREMS = 'C15_designator, C15_designator_range, C15_reject, C15_charsets, C15_other_eci, C15_utf8'
 ASSUMPTIONS = ['Spec/Eci.v states ISO/IEC 16022 Table 6 and ISO 8859-1/-9/-11 by formula',
@@ -70,6 +71,24 @@ def gen_cases(rng, tier, ctx):
         for b in range(256):
             cs.append({'line': 'decode_str %s' % fmt_list([241] + designator(e) + payload(b)), 'cat': 'charset-byte'})
         cs.append({'line': 'decode_str %s' % fmt_list([241] + designator(e) + payload(65) + payload(233) + payload(66)), 'cat': 'charset-mixed'})
+    # long payloads (one to several 16-byte blocks) under every supported ECI: printable text with one byte of another kind
+    # (control, DEL, C1, undefined or upper-half byte) at the start, the end, a block border or anywhere
+    odd = [0, 9, 10, 0x1F, 0x7F, 0x80, 0x9F, 0xA0, 0xDB, 0xDE, 0xE9, 0xFC, 0xFF]
+    for e in (0, 3, 11, 13, 26, 27):
+        for L in ([16, 17, 33, 64] if tier == 'quick' else [15, 16, 17, 31, 32, 33, 47, 48, 64, 100, 256]):
+            base = [rng.range(32, 126) for _ in range(L)]
+            variants = [list(base)]
+            if e in (0, 3, 11, 13):
+                variants.append([rng.choice([rng.range(32, 126), rng.range(0xA0, 0xDA)]) for _ in range(L)])
+            for o in odd:
+                for posn in (0, 15, 16, L - 1, rng.below(L)):
+                    if posn < L and (tier != 'quick' or rng.chance(1, 2)):
+                        v = list(base)
+                        v[posn] = o
+                        variants.append(v)
+            for v in variants:
+                cs.append({'line': 'decode_str %s' % fmt_list([241] + designator(e) + [x for b in v for x in payload(b)]),
+                           'cat': 'charset-long', 'eci': e, 'bytes': v})
     # ECI switches in mid stream, decode_data must refuse ECI
     cs.append({'line': 'decode_data 66,241,27,67', 'cat': 'raw-eci'})
     cs.append({'line': 'decode_str 66,241,12,235,113,241,14,235,34,241,27,67', 'cat': 'multi-eci'})
@@ -158,6 +177,18 @@ def check_impl(c, out, ctx, prof):
         if want is None:
             return None if out == 'err CharsetError' else 'ECI %d byte 0x%02X: %s, should be CharsetError' % (e, b, out)
         return None if out == 'ok %d' % want else 'ECI %d byte 0x%02X decoded as %s, the character set says U+%04X' % (e, b, out, want)
+    if c['cat'] == 'charset-long':
+        e, bs = c['eci'], c['bytes']
+        if e == 26:
+            try:
+                want = 'ok ' + fmt_list([ord(ch) for ch in bytes(bs).decode('utf-8')])
+            except UnicodeDecodeError:
+                want = 'err CharsetError'
+        else:
+            table = {0: iso1, 3: iso1, 11: iso9, 13: iso11, 27: lambda x: x if x < 128 else None}[e]
+            m = [table(b) for b in bs]
+            want = 'err CharsetError' if None in m else 'ok ' + fmt_list(m)
+        return None if out == want else 'ECI %d, %d bytes %s...: %s..., the character set says %s...' % (e, len(bs), bs[:20], out[:40], want[:40])
     if c['cat'] == 'utf8-long' and a[0] == 'decode_str':
         try:
             want = 'ok ' + fmt_list([ord(ch) for ch in bytes(c['bytes']).decode('utf-8')])
